@@ -7,67 +7,109 @@
 (* calls.  Evaluation itself is a pure function of (configuration, input): *)
 (* the result of a call is the abstract value Res(cfg, inp).               *)
 (*                                                                         *)
-(* Actions: NewEvaluator(c, sgt), Evaluate(e, inp, opts), QueryKeys(e),    *)
-(* NewAggregator(e, logTimes), Save(e).                                    *)
+(* Actions: NewEvaluator(c, sgt, src), Evaluate(e, inp, opts),             *)
+(* QueryKeys(e), NewAggregator(e, logTimes), Save(e).                      *)
+(*                                                                         *)
+(* Argument objects: the list of instance metrics an evaluator is built    *)
+(* with is an OBJECT of the caller (or the constructor's default-argument   *)
+(* object) that the evaluator keeps by reference: src says which one -     *)
+(* "fresh" (a new list), "shared" (the caller's one list for that          *)
+(* configuration, passed to every such constructor), "default" (argument   *)
+(* omitted).  No action may ever change the content of such a list         *)
+(* (ArgsUntouched), otherwise evaluators influence each other.             *)
+(* Rejected configurations (a decision metric outside the instance         *)
+(* metrics) construct fine and refuse every later use.                     *)
 (*                                                                         *)
 (* Design constants (TRUE = as shipped before the fix: commits):           *)
 (*   AliasKeys      the aggregator appends "computation_time" to the very  *)
 (*                  list object the evaluator caches                       *)
 (*   PerCallTimes   evaluate(save_group_times=True) on an evaluator built  *)
 (*                  without it fails                                       *)
+(*   MutateArgs     (a hazard, never shipped) the constructor completes    *)
+(*                  the metric list it was handed with the decision metric *)
 (***************************************************************************)
 EXTENDS Integers, Sequences, FiniteSets, TLC
 
-CONSTANTS Cfgs, Inputs, MaxEvaluators, MaxSteps, AliasKeys, PerCallTimes
+CONSTANTS Cfgs, Inputs, MaxEvaluators, MaxSteps, AliasKeys, PerCallTimes,
+          DefaultCfgs,    \* configurations whose instance metrics are the constructor's default
+          RejectedCfgs,   \* configurations whose decision metric is not an instance metric
+          MutateArgs
 
-VARIABLES evs,      \* sequence of [cfg, sgt, keysObj]  (keysObj = 0: not computed yet)
-          lists,    \* the heap of list objects: sequence of sequences of keys
+VARIABLES evs,      \* sequence of [cfg, sgt, keysObj, ml]  (keysObj = 0: not computed yet; ml: metric-list object)
+          lists,    \* the heap of key-list objects: sequence of sequences of keys
+          mlists,   \* the heap of metric-list objects: sequence of [owner, content]
           aggs,     \* sequence of [ev, cols] (cols = index of a list object)
           hist,     \* sequence of [cfg, inp, res]
           last,     \* the action just taken (for replay into the real code)
           steps
-vars == <<evs, lists, aggs, hist, last, steps>>
+vars == <<evs, lists, mlists, aggs, hist, last, steps>>
 
-BaseKeys(c) == <<"tp", "sq_" \o c>>
-Res(c, i) == <<"res", c, i>>
+Sources == {"fresh", "shared", "default"}
+\* the metric list a caller writes down for configuration c (rejected configurations: the default list)
+MetricsOf(c) == IF c \in DefaultCfgs THEN <<"default-metrics">> ELSE <<"metrics-" \o c>>
+\* keys and results are functions of the configuration and of the CONTENT of the metric list
+KeysFrom(c, content) == <<"tp", "sq_" \o c>> \o content
+BaseKeys(c) == KeysFrom(c, MetricsOf(c))
+ResFrom(c, content, i) == <<"res", c, content, i>>
+Res(c, i) == ResFrom(c, MetricsOf(c), i)
 Opts == [result_all : BOOLEAN, sgt : BOOLEAN, log : BOOLEAN, verbose : BOOLEAN, pool : {"serial", "real"}]
 
+\* object 1 of the metric-list heap is the constructor's default argument
 Init == evs = <<>> /\ lists = <<>> /\ aggs = <<>> /\ hist = <<>> /\ steps = 0
-        /\ last = [act |-> "init", e |-> 0, c |-> "-", inp |-> "-", sgt |-> FALSE, ra |-> TRUE, log |-> FALSE, vb |-> FALSE, pool |-> "serial"]
+        /\ mlists = <<[owner |-> "default", content |-> <<"default-metrics">>]>>
+        /\ last = [act |-> "init", e |-> 0, c |-> "-", inp |-> "-", sgt |-> FALSE, ra |-> TRUE, log |-> FALSE, vb |-> FALSE, pool |-> "serial", src |-> "-"]
 
 Tick == steps < MaxSteps /\ steps' = steps + 1
-Act(a, e, c, i, o) == last' = [act |-> a, e |-> e, c |-> c, inp |-> i, sgt |-> o.sgt, ra |-> o.result_all, log |-> o.log, vb |-> o.verbose, pool |-> o.pool]
+ActS(a, e, c, i, o, src) == last' = [act |-> a, e |-> e, c |-> c, inp |-> i, sgt |-> o.sgt, ra |-> o.result_all, log |-> o.log, vb |-> o.verbose, pool |-> o.pool, src |-> src]
+Act(a, e, c, i, o) == ActS(a, e, c, i, o, "-")
 NoOpts == [result_all |-> TRUE, sgt |-> FALSE, log |-> FALSE, verbose |-> FALSE, pool |-> "serial"]
 
-NewEvaluator(c, sgt) ==
+SharedOf(c) == {k \in 1..Len(mlists) : mlists[k].owner = c}
+NewEvaluator(c, sgt, src) ==
     /\ Tick /\ Len(evs) < MaxEvaluators
-    /\ evs' = Append(evs, [cfg |-> c, sgt |-> sgt, keysObj |-> 0])
-    /\ Act("new_evaluator", Len(evs) + 1, c, "-", [NoOpts EXCEPT !.sgt = sgt])
+    /\ (src = "default") => c \in DefaultCfgs
+    /\ LET reuse == (src = "default") \/ (src = "shared" /\ SharedOf(c) # {})
+           ml    == IF src = "default" THEN 1
+                    ELSE IF reuse THEN CHOOSE k \in SharedOf(c) : TRUE ELSE Len(mlists) + 1
+           heap  == IF reuse THEN mlists
+                    ELSE Append(mlists, [owner |-> IF src = "shared" THEN c ELSE "-", content |-> MetricsOf(c)])
+       IN /\ mlists' = IF MutateArgs /\ c \in RejectedCfgs
+                       THEN [heap EXCEPT ![ml].content = Append(@, "decision-metric")] ELSE heap
+          /\ evs' = Append(evs, [cfg |-> c, sgt |-> sgt, keysObj |-> 0, ml |-> ml])
+    /\ ActS("new_evaluator", Len(evs) + 1, c, "-", [NoOpts EXCEPT !.sgt = sgt], src)
     /\ UNCHANGED <<lists, aggs, hist>>
+
+Usable(e) == evs[e].cfg \notin RejectedCfgs
+Content(e) == mlists[evs[e].ml].content
+\* a rejected configuration refuses every use; nothing changes
+Refused(e, a, i, o) ==
+    /\ Tick /\ e \in 1..Len(evs) /\ ~Usable(e)
+    /\ Act(a, e, evs[e].cfg, i, o)
+    /\ UNCHANGED <<evs, lists, mlists, aggs, hist>>
 
 \* the lazy property: computed once, then the same list object every time
 EnsureKeys(e) ==
     IF evs[e].keysObj # 0 THEN /\ evs' = evs /\ lists' = lists
-    ELSE /\ lists' = Append(lists, BaseKeys(evs[e].cfg))
+    ELSE /\ lists' = Append(lists, KeysFrom(evs[e].cfg, Content(e)))
          /\ evs' = [evs EXCEPT ![e].keysObj = Len(lists) + 1]
 
 QueryKeys(e) ==
-    /\ Tick /\ e \in 1..Len(evs)
+    /\ Tick /\ e \in 1..Len(evs) /\ Usable(e)
     /\ EnsureKeys(e)
     /\ Act("query_keys", e, evs[e].cfg, "-", NoOpts)
-    /\ UNCHANGED <<aggs, hist>>
+    /\ UNCHANGED <<aggs, hist, mlists>>
 
 Evaluate(e, i, o) ==
-    /\ Tick /\ e \in 1..Len(evs)
+    /\ Tick /\ e \in 1..Len(evs) /\ Usable(e)
     /\ hist' = Append(hist, [cfg |-> evs[e].cfg, inp |-> i,
-                             res |-> IF PerCallTimes /\ o.sgt /\ ~evs[e].sgt THEN <<"raise">> ELSE Res(evs[e].cfg, i)])
+                             res |-> IF PerCallTimes /\ o.sgt /\ ~evs[e].sgt THEN <<"raise">> ELSE ResFrom(evs[e].cfg, Content(e), i)])
     /\ Act("evaluate", e, evs[e].cfg, i, o)
-    /\ UNCHANGED <<evs, lists, aggs>>
+    /\ UNCHANGED <<evs, lists, aggs, mlists>>
 
 NewAggregator(e, logTimes) ==
-    /\ Tick /\ e \in 1..Len(evs)
+    /\ Tick /\ e \in 1..Len(evs) /\ Usable(e)
     /\ LET obj  == IF evs[e].keysObj # 0 THEN evs[e].keysObj ELSE Len(lists) + 1
-           base == IF evs[e].keysObj # 0 THEN lists ELSE Append(lists, BaseKeys(evs[e].cfg))
+           base == IF evs[e].keysObj # 0 THEN lists ELSE Append(lists, KeysFrom(evs[e].cfg, Content(e)))
            evs1 == [evs EXCEPT ![e].keysObj = obj]
        IN IF AliasKeys
           THEN /\ lists' = (IF logTimes THEN [base EXCEPT ![obj] = Append(base[obj], "computation_time")] ELSE base)
@@ -77,17 +119,17 @@ NewAggregator(e, logTimes) ==
                /\ aggs' = Append(aggs, [ev |-> e, cols |-> Len(base) + 1])
                /\ evs' = evs1
     /\ Act("new_aggregator", e, evs[e].cfg, "-", [NoOpts EXCEPT !.log = logTimes])
-    /\ UNCHANGED hist
+    /\ UNCHANGED <<hist, mlists>>
 
 Save(e) ==
     /\ Tick /\ e \in 1..Len(evs)
     /\ Act("save", e, evs[e].cfg, "-", NoOpts)
-    /\ UNCHANGED <<evs, lists, aggs, hist>>
+    /\ UNCHANGED <<evs, lists, aggs, hist, mlists>>
 
-Next == \/ \E c \in Cfgs, s \in BOOLEAN : NewEvaluator(c, s)
-        \/ \E e \in 1..MaxEvaluators : QueryKeys(e) \/ Save(e)
-        \/ \E e \in 1..MaxEvaluators, i \in Inputs, o \in Opts : Evaluate(e, i, o)
-        \/ \E e \in 1..MaxEvaluators, lt \in BOOLEAN : NewAggregator(e, lt)
+Next == \/ \E c \in Cfgs, s \in BOOLEAN, src \in Sources : NewEvaluator(c, s, src)
+        \/ \E e \in 1..MaxEvaluators : QueryKeys(e) \/ Save(e) \/ Refused(e, "query_keys", "-", NoOpts)
+        \/ \E e \in 1..MaxEvaluators, i \in Inputs, o \in Opts : Evaluate(e, i, o) \/ Refused(e, "evaluate", i, o)
+        \/ \E e \in 1..MaxEvaluators, lt \in BOOLEAN : NewAggregator(e, lt) \/ Refused(e, "new_aggregator", "-", [NoOpts EXCEPT !.log = lt])
 Spec == Init /\ [][Next]_vars
 
 Keys(e) == lists[evs[e].keysObj]
@@ -98,4 +140,7 @@ NoCallRaises  == \A a \in 1..Len(hist) : hist[a].res # <<"raise">>
 \* an evaluator's advertised keys do not change through use (of anything)
 KeysStable == [][\A e \in 1..Len(evs) : evs[e].keysObj # 0 => (evs'[e].keysObj = evs[e].keysObj /\ lists'[evs[e].keysObj] = Keys(e))]_vars
 KeysAreBase == \A e \in 1..Len(evs) : evs[e].keysObj # 0 => Keys(e) = BaseKeys(evs[e].cfg)
+\* the content of a metric-list object never changes: neither the caller's lists nor the default argument
+ArgsUntouched == [][\A k \in 1..Len(mlists) : mlists'[k] = mlists[k]]_vars
+ArgsAreNominal == \A e \in 1..Len(evs) : Content(e) = MetricsOf(evs[e].cfg)
 =============================================================================
